@@ -1,4 +1,5 @@
 """Build and run a batch of generated parsers (implementation side) and the model on the same cases."""
+import hashlib
 import json
 import os
 import re
@@ -21,7 +22,12 @@ OPTSETS = {
 
 def tool(bd, name):
     """build (once per tree) one of the harness Go tools"""
-    exe = os.path.join(bd, name)
+    h = hashlib.sha256()
+    src = os.path.join(C.VERIF, "harness", "go", name)
+    for root, _, fs in sorted(os.walk(src)):
+        for f in sorted(fs):
+            h.update(open(os.path.join(root, f), "rb").read())
+    exe = os.path.join(bd, "%s-%s" % (name, h.hexdigest()[:10]))        # rebuilt when the tool's source changes
     if os.path.exists(exe):
         return exe
     with C.Lock("gotools"):
@@ -299,6 +305,9 @@ class Model:
             elif line.startswith("gen "):
                 head, rest = line.split(" :: ", 1)
                 res[("gen", head.split(" ")[1])] = rest
+            elif line.startswith("emit "):
+                head, rest = line.split(" :: ", 1)
+                res[("emit", head.split(" ")[1])] = rest
             elif line.startswith("ERR"):
                 errs.append(line)
         return res, errs
